@@ -201,6 +201,16 @@ pub fn new_map() -> Val {
     Val::Ctor("$map".into(), vec![], BTreeMap::new())
 }
 
+pub fn map_insert(m: Val, k: Val, v: Val) -> Val {
+    match m {
+        Val::Ctor(n, p, mut f) => {
+            f.insert(map_key(&k), v);
+            Val::Ctor(n, p, f)
+        }
+        o => o,
+    }
+}
+
 impl<'a> Evaluator<'a> {
     pub fn pat_match(&self, p: &syn::Pat, v: &Val, env: &mut Env) -> PatM {
         use syn::Pat;
@@ -555,7 +565,20 @@ impl<'a> Evaluator<'a> {
             let is_last = i + 1 == b.stmts.len();
             match s {
                 syn::Stmt::Local(l) => {
-                    let init = l.init.as_ref().ok_or("let without initialiser")?;
+                    let Some(init) = l.init.as_ref() else {
+                        // `let x;` / `let x: T;` — declared here, assigned later
+                        let mut p = &l.pat;
+                        while let syn::Pat::Type(pt) = p {
+                            p = &pt.pat;
+                        }
+                        match p {
+                            syn::Pat::Ident(pi) => {
+                                env.insert(pi.ident.to_string(), Val::Opaque("uninitialised".into()));
+                            }
+                            o => return Err(format!("let without initialiser: `{}`", tok(o))),
+                        }
+                        continue;
+                    };
                     let v = self.eval(&init.expr, env)?;
                     match self.pat_match(&l.pat, &v, env) {
                         PatM::Yes => {}
@@ -1022,6 +1045,17 @@ impl<'a> Evaluator<'a> {
                         env.insert(p.path.segments[0].ident.to_string(), v);
                         Ok(Val::Unit)
                     }
+                    // destructuring assignment `(a, b) = ..`
+                    Expr::Tuple(t) if t.elems.iter().all(|e| matches!(e, Expr::Path(p) if p.path.segments.len() == 1)) => match v {
+                        Val::Tuple(vs) if vs.len() == t.elems.len() => {
+                            for (e, v) in t.elems.iter().zip(vs) {
+                                env.insert(tok(e), v);
+                            }
+                            Ok(Val::Unit)
+                        }
+                        Val::Ctor(n, p, f) if n == "$return" => Ok(Val::Ctor(n, p, f)),
+                        o => Err(format!("destructuring assignment of {}", o.show())),
+                    },
                     other => {
                         if let Some(place) = self.place_of(other) {
                             if let Some(t) = place_get_mut(env, &place) {
@@ -1424,6 +1458,12 @@ impl<'a> Evaluator<'a> {
                     }
                 }
                 if let Val::List(items) = &recv {
+                    // a rule may take over a whole closure-taking adaptor of a list (`list.fold`, ..): asked before the native treatment
+                    if mc.args.iter().any(|a| matches!(a, syn::Expr::Closure(_))) {
+                        if let Some(r) = (self.call_hook)(self, &format!("list.{}", name), &[recv.clone()]) {
+                            return r;
+                        }
+                    }
                     match name.as_str() {
                         "iter" | "into_iter" | "iter_mut" | "clone" | "to_owned" | "as_ref" | "as_slice" | "to_vec" => return Ok(recv.clone()),
                         "len" => return Ok(Val::int(items.len() as i128)),
@@ -1866,6 +1906,9 @@ impl<'a> Evaluator<'a> {
                 let it = self.eval(&fl.expr, env)?;
                 let items = match it {
                     Val::List(l) => l,
+                    // a map is visited in key order, as (key, value) pairs; a set in element order
+                    Val::Ctor(n, _, f) if n == "$map" => f.into_iter().map(|(k, v)| Val::Tuple(vec![Val::Str(k), v])).collect(),
+                    Val::Ctor(n, _, f) if n == "$set" => f.into_values().collect(),
                     o => return Err(format!("for loop over {}", o.show())),
                 };
                 for item in items {
